@@ -6,15 +6,17 @@ import gen
 from vlib import t_vec, fq, ff, lin_bracket
 
 ID = "C11"
-LEAN_MODULES = ["NdInterp.Props.C11", "NdInterp.Props.RatTie", "NdInterp.Props.IntTie", "NdInterp.Props.FormulaTie.Lin"]
-THEOREM_FILES = [("NdInterp/Props/C11.lean", "C11_"), ("NdInterp/Props/IntTie.lean", "C11_"), ("NdInterp/Props/FormulaTie/Lin.lean", "FT_idx_"), ("NdInterp/Props/FormulaTie/Lin.lean", "FT_lin_calc_frac")]
+LEAN_MODULES = ["NdInterp.Props.C11", "NdInterp.Props.C11Fl", "NdInterp.Props.RatTie", "NdInterp.Props.IntTie", "NdInterp.Props.FormulaTie.Lin"]
+THEOREM_FILES = [("NdInterp/Props/C11.lean", "C11_"), ("NdInterp/Props/C11Fl.lean", "C11_"), ("NdInterp/Props/IntTie.lean", "C11_"), ("NdInterp/Props/FormulaTie/Lin.lean", "FT_idx_"), ("NdInterp/Props/FormulaTie/Lin.lean", "FT_lin_calc_frac")]
 RULE = ("get_lower_index at Q (exact) and f64 (index compared): axes n=2..40 (thorough ..2000) of kinds unit/uniform/geometric/"
         "clustered/log/ulps-apart/mixed-magnitude/even-grid-with-moved-interior, and i64 axes (unit/uniform/gappy/above 2^53); queries at every knot, neighbouring floats, midpoints, +-inf, +-MAX, +-0, outside; "
         "plus the constructed family: for every n<=N (quick 12, thorough 40), every guess position g and every rank r an axis on "
         "[0,n-1] whose O(1) guess is g and whose bracket is r ((n-1)^2 pairs per n, exhaustive). non-trivial = query strictly "
         "inside the range; distinct = distinct case line")
-PARTIAL = ["for f64 the arithmetic fact 'the O(1) guess lands inside the axis' (GuessOK) is proved in exact arithmetic only "
-           "(C11_guess); for floats it is exercised by this run, C11_bracket then covers every guess",
+PARTIAL = ["for f64/f32 the arithmetic fact 'the O(1) guess lands inside the axis' (GuessOK) is proved in exact arithmetic (C11_guess) and "
+           "under the standard model of fp arithmetic without overflow/underflow for axes of fewer than 1/(7u+6u^2) points "
+           "(C11_guess_rounding, C11_float_stdmodel; the bound on n is needed in that model: C11_guess_rounding_sharp); longer axes and "
+           "under/overflowing intermediates are exercised by this run only — C11_bracket then covers every guess that is an index",
            "i32 axes: covered by C11_bracket (any linear order, any guess); i64 is run through the protocol (model at Z64), i32 is not"]
 ASSUMPTIONS = ["axis length < 2^64 (usize)", "non-NaN f64 comparison is a linear order"]
 
@@ -127,6 +129,27 @@ def generate(rng, tier):
             z = [Fr(i) for i in range(n)] if S == "Q" else [float(i) for i in range(n)] if S == "F" else list(range(n))
             line = gen.i1_line(S, xs, [n], z, ("lin", True), gen.e_idx(S, *qs))
             cases.append({"line": line, "meta": {"seq": [(xs, qs)]}})
+    # long uneven axes (seed C11-r5m2: a coarse pre-search on every 8th knot only shows with 64+ intervals left after the O(1) guess
+    # and only for queries in the last few intervals of the remaining range): every interval of the axis is queried through one
+    # interpolator (`idx` sweep), the intervals at both ends and next to the multiples of 8 / 64 also through `get_lower_index`
+    for _ in range(max(3, reps // 8)):
+        S = rng.choice(["Q", "Q", "F", "I"])
+        n = rng.choice([66, 71, 100, 130, 200, 257, 300])
+        xs = gen.long_axis(rng, rng.choice(gen.LONG_KINDS), n, S)
+        mids = [(a + b) / 2 if S != "I" else (a + b) // 2 for a, b in zip(xs, xs[1:])]
+        sweep = [v for p in zip(xs, mids) for v in p] + [xs[-1]]
+        if rng.random() < 0.5:
+            sweep = sweep[::-1]
+        z = [Fr(0)] * n if S == "Q" else [0.0] * n if S == "F" else [0] * n
+        line = gen.i1_line(S, xs, [n], z, ("lin", True), gen.e_idx(S, *sweep))
+        cases.append({"line": line, "meta": {"seq": [(xs, sweep)]}})
+        hot = set(range(0, 10)) | set(range(n - 11, n - 1)) | {i for i in range(n - 1) if i % 8 in (0, 7) and rng.random() < 0.3} \
+            | {rng.randrange(n - 1) for _ in range(6)}
+        mk = {"Q": case_q, "F": case_f, "I": case_i}[S]
+        for i in sorted(hot):
+            cases.append(mk(xs, mids[i], rng.choice(gen.LAYS_1D)))
+            if rng.random() < 0.3:
+                cases.append(mk(xs, xs[i], rng.choice(gen.LAYS_1D)))
     if tier == "thorough":
         for n in (500, 2000):
             for kind in ("uniform", "geometric", "ulps", "log"):
